@@ -52,7 +52,14 @@ for (a0, a1, s0) in ((10, 200, True), (200, 10, False), (-100, 95, True), (60, 3
 '''
 
 
-def fam_arc_arc_circles(R, tvals=(0.5, 0.5, 0.5, 0.5)):
+def symx_eq_poly(a, b):
+    """a and b are the same polynomial (decided by z3 on the identity a - b == 0)"""
+    from ..symx import solve
+    r, dt, m = solve([a - b != 0], 5000)
+    return r == 'unsat'
+
+
+def fam_arc_arc_circles(R, tvals=(0.5, 0.5, 0.5, 0.5), mode='candidates', sign=0):
     import svgpathtools.path as P
     from svgpathtools.path import Arc
     R.bound(arcs='two unrotated circular arcs: centres and radii symbolic; sweeps unconstrained (point_to_t is a recorder)',
@@ -140,16 +147,54 @@ def fam_arc_arc_circles(R, tvals=(0.5, 0.5, 0.5, 0.5)):
         def on(p, c, rr):
             return (p.real - c.real) * (p.real - c.real) + (p.imag - c.imag) * (p.imag - c.imag), rr * rr
         if len(cands) == 2:
-            for i, p in enumerate(cands):
+            for i, p in (enumerate(cands) if mode != 'complete' else ()):
                 for nm, c_, rr in (('self', c0, r0), ('other', c1, r1)):
                     lhs, rhs = on(p, c_, rr)
                     gap = lhs.e - rhs.e
                     R.ob_eq('candidate%d-on-%s-circle' % (i, nm), ctx, lhs.e, rhs.e, cex=cex, robust=robust + [z3.Or(gap >= 0.01, gap <= -0.01)], timeout_ms=60000)
+            # an arbitrary point of the plane in the orthonormal frame of the centre line:  w = c0 + alpha u/d + s n/d,  u = c1 - c0, n = i u
+            d_atom = None
+            for kk_, (rad_, q_) in ctx.sqrt_memo.items():
+                if isinstance(kk_, int) and z3.is_const(q_) and not z3.is_rational_value(q_):
+                    if z3.is_true(z3.simplify(z3.simplify(rad_) == z3.simplify(dd.e))) or symx_eq_poly(rad_, dd.e):
+                        d_atom = SR(q_)
+            if d_atom is not None and mode == 'complete':
+                # completeness in four solver-checked steps.  Every point of the plane is  w = c0 + alpha u + s n  (u = c1 - c0, n = i u,
+                # u != 0).  For w on both circles, with D = |u|^2:
+                #   (A) 2 alpha D = r0^2 - r1^2 + D          (difference of the two circle equations)
+                #   (B) s^2 D = r0^2 - alpha^2 D             (the first circle equation)
+                #   (C) given (A) and k >= 0 with k^2 D = r0^2 - alpha^2 D:  c0 + alpha u + k n  and  c0 + alpha u - k n  are candidates
+                #       (posed with a = alpha d, h = k d, d = |u| the code's own square root, and bridged back)
+                #   (D) s^2 D = k^2 D, D > 0  =>  s = k or s = -k
+                # hence w is one of the two candidates.
+                al, ss, hh = symr('alpha'), symr('s'), symr('k')
+                ux, uy = c1.real - c0.real, c1.imag - c0.imag
+                w = SC(c0.real + al * ux - ss * uy, c0.imag + al * uy + ss * ux)
+                l0, r0_ = on(w, c0, r0)
+                l1, r1_ = on(w, c1, r1)
+                E = [l0.e == r0_.e, l1.e == r1_.e]
+                A_eq = (al * dd * 2).e == (r0 * r0 - r1 * r1 + dd).e
+                R.ob_eq('complete.A: 2 alpha D = r0^2 - r1^2 + D', ctx, (al * dd * 2).e, (r0 * r0 - r1 * r1 + dd).e, extra=E, cex=cex, timeout_ms=60000)
+                R.ob_eq('complete.B: s^2 D = r0^2 - alpha^2 D', ctx, (ss * ss * dd).e, (r0 * r0 - al * al * dd).e, extra=E, cex=cex, timeout_ms=60000)
+                H = [hh.e >= 0, (hh * hh * dd).e == (r0 * r0 - al * al * dd).e]
+                # (C) is posed in the normalisation the code uses (a = alpha d along u/d, h = k d along n/d), with three bridging identities
+                ao, ho = symr('a_along'), symr('h_across')
+                Ao = (ao * d_atom * 2).e == (r0 * r0 - r1 * r1 + dd).e
+                Ho = [ho.e >= 0, (ho * ho).e == (r0 * r0 - ao * ao).e]
+                for sg_, nm_ in (((1, '+'), (-1, '-')) if sign == 0 else ((sign, '+' if sign > 0 else '-'),)):
+                    wc = SC(c0.real + (ao * ux - ho * sg_ * uy) / d_atom, c0.imag + (ao * uy + ho * sg_ * ux) / d_atom)
+                    hit = z3.Or(*[ceq(wc, p_) for p_ in cands])
+                    R.ob('complete.C: c0 + (a u %s h n)/d is a candidate' % nm_, ctx, hit, extra=[Ao] + Ho, cex=cex, timeout_ms=60000)
+                R.ob_eq('complete.bridge: a = alpha d satisfies (A)', ctx, (al * d_atom * d_atom * 2).e, (r0 * r0 - r1 * r1 + dd).e, extra=[A_eq], cex=cex, timeout_ms=60000)
+                R.ob_eq('complete.bridge: h = k d satisfies h^2 = r0^2 - a^2', ctx, (hh * d_atom * hh * d_atom).e, (r0 * r0 - al * d_atom * al * d_atom).e, extra=H, cex=cex, timeout_ms=60000)
+                for nm_, lhs_, rhs_ in (('x', (al * d_atom * ux - hh * d_atom * uy) / d_atom, al * ux - hh * uy), ('y', (al * d_atom * uy + hh * d_atom * ux) / d_atom, al * uy + hh * ux)):
+                    R.ob_eq('complete.bridge: same point (%s)' % nm_, ctx, lift(lhs_).e, lift(rhs_).e, cex=cex, timeout_ms=60000)
+                R.ob('complete.D: s^2 D = k^2 D, D > 0 => s = +-k', ctx, z3.Or(ss.e == hh.e, ss.e == -hh.e), extra=[(ss * ss * dd).e == (hh * hh * dd).e, dd.e > 0], cex=cex)
             w = symc('w')
             l0, r0_ = on(w, c0, r0)
             l1, r1_ = on(w, c1, r1)
             claim = z3.Or(ceq(w, cands[0]), ceq(w, cands[1]))
-            v_ = 'skipped' if any(v != 0.5 for v in tvals) else R.ob('every-common-point-is-a-candidate', ctx, claim, extra=[l0.e == r0_.e, l1.e == r1_.e], cex=cex, timeout_ms=60000,
+            v_ = 'skipped' if (any(v != 0.5 for v in tvals) or mode == 'complete' or d_atom is not None) else R.ob('every-common-point-is-a-candidate', ctx, claim, extra=[l0.e == r0_.e, l1.e == r1_.e], cex=cex, timeout_ms=60000,
                       robust=robust + [l0.e == r0_.e, l1.e == r1_.e, z3.Not(claim)] + [z3.Or(zabs((w.real - p.real).e) >= 0.05, zabs((w.imag - p.imag).e) >= 0.05) for p in cands])
             if v_ == 'unknown' and not getattr(R, '_probed_aa', False):
                 R._probed_aa = True      # undecided: probe the real branch on fixed circles (confirms a lost crossing, proves nothing)
